@@ -2,6 +2,7 @@ package rules
 
 import (
 	"fmt"
+	"go/constant"
 	"go/token"
 	"go/types"
 	"strings"
@@ -46,38 +47,89 @@ func c08Get(v ssa.Value) (call *ssa.Call, window ssa.Value, width int, order str
 	return call, call.Common().Args[1], width, order, true
 }
 
-// c08ConstWindow: window = buf[lo:…] with constant lo; returns buf and lo.
-func c08ConstWindow(window ssa.Value) (buf ssa.Value, lo int64, ok bool) {
-	sl, isS := window.(*ssa.Slice)
-	if !isS {
-		return nil, 0, false
+// c08Window resolves a byte-slice value to the bytes [lo, hi) of a root buffer:
+// nested re-slices are composed (h := data[d:d+8]; h[4:8] is data[d+4:d+8]),
+// parameters of inlined helpers are followed to their arguments. open = no
+// upper bound was given (the window extends to the end of the root).
+func c08Window(z *codec.Sym, v ssa.Value, fr *codec.Frame) (root ssa.Value, rootFr *codec.Frame, lo, hi lin.Form, open bool) {
+	v, fr = codec.Resolve(v, fr)
+	sl, ok := v.(*ssa.Slice)
+	if !ok || sl.Max != nil {
+		return v, fr, lin.K(0), lin.K(0), true
 	}
-	lo = 0
+	if _, isSl := sl.X.Type().Underlying().(*types.Slice); !isSl {
+		return v, fr, lin.K(0), lin.K(0), true
+	}
+	root, rootFr, lo0, hi0, open0 := c08Window(z, sl.X, fr)
+	lo = lo0
 	if sl.Low != nil {
-		k, isK := c08ConstInt(sl.Low)
-		if !isK || !k.IsInt64() {
-			return nil, 0, false
-		}
-		lo = k.Int64()
+		lo = lo0.Add(z.OfIn(sl.Low, fr))
 	}
-	return sl.X, lo, true
+	if sl.High != nil {
+		return root, rootFr, lo, lo0.Add(z.OfIn(sl.High, fr)), false
+	}
+	return root, rootFr, lo, hi0, open0
+}
+
+// c08Read: an integer obtained with encoding/binary from bytes [lo, lo+width) of root.
+type c08Read struct {
+	call   *ssa.Call
+	root   ssa.Value
+	rootFr *codec.Frame
+	lo     lin.Form
+	width  int
+	order  string
+}
+
+// c08WireRead recognises v (in activation fr) as such a read, directly or
+// through up to two in-module accessor helpers with a single return.
+func (c *c08) wireRead(z *codec.Sym, v ssa.Value, fr *codec.Frame, depth int) (*c08Read, bool) {
+	for d := 0; d < 8; d++ {
+		v = c08Strip(v)
+		w, wf := codec.Resolve(v, fr)
+		if w == v && wf == fr {
+			break
+		}
+		v, fr = w, wf
+	}
+	if call, win, w, order, ok := c08Get(v); ok {
+		root, rfr, lo, _, _ := c08Window(z, win, fr)
+		return &c08Read{call: call, root: root, rootFr: rfr, lo: lo, width: w, order: order}, true
+	}
+	call, f := c08StaticCall(v)
+	if call == nil || f == nil || f.Blocks == nil || !c.P.InModule(f) || depth >= 2 || f.Signature.Results().Len() != 1 {
+		return nil, false
+	}
+	var ret *ssa.Return
+	for _, b := range f.Blocks {
+		if r, ok := b.Instrs[len(b.Instrs)-1].(*ssa.Return); ok {
+			if ret != nil {
+				return nil, false
+			}
+			ret = r
+		}
+	}
+	if ret == nil {
+		return nil, false
+	}
+	return c.wireRead(z, ret.Results[0], &codec.Frame{Call: call, Callee: f, Parent: fr}, depth+1)
 }
 
 // wireIntAt: v is an N-byte integer read at constant offset off of buf in the given order.
-func c08WireIntAt(v ssa.Value, buf ssa.Value, off int64, width int, order string) (bool, string) {
-	_, win, w, o, ok := c08Get(v)
+func (c *c08) wireIntAt(z *codec.Sym, v ssa.Value, fr *codec.Frame, buf ssa.Value, off int64, width int, order string) (bool, string) {
+	rd, ok := c.wireRead(z, v, fr, 0)
 	if !ok {
 		return false, "is not read with encoding/binary from the message"
 	}
-	b, lo, ok := c08ConstWindow(win)
-	if !ok || b != buf {
+	lo, isK := c08FormConst(rd.lo)
+	if !isK || rd.root != buf || rd.rootFr != nil {
 		return false, "is not read at a constant offset of the message buffer"
 	}
-	if lo != off || w != width {
-		return false, fmt.Sprintf("is read as %d bytes at offset %d (MS-NLMP: %d bytes at %d)", w, lo, width, off)
+	if lo != off || rd.width != width {
+		return false, fmt.Sprintf("is read as %d bytes at offset %d (MS-NLMP: %d bytes at %d)", rd.width, lo, width, off)
 	}
-	if o != order {
-		return false, fmt.Sprintf("is read %s (must be %s)", o, order)
+	if rd.order != order {
+		return false, fmt.Sprintf("is read %s (must be %s)", rd.order, order)
 	}
 	return true, ""
 }
@@ -147,6 +199,17 @@ func (c *c08) parseChallenge1(fn *ssa.Function, name string, sig *ssa.Global) {
 	for _, s := range spec {
 		construct := name + ": " + s.field
 		as := byField[s.field]
+		if len(as) == 0 && s.kind == "bytes" {
+			// root.F = [N]byte(data[a:b]) (slice-to-array conversion) instead of copy(root.F[:], data[a:b])
+			if off, w, pos, ok := c.arrayFromWindow(fn, root, data, s.field); ok {
+				if off != s.off || w != int64(s.width) {
+					r.Fail("R4.challenge-field", construct, c.pos(pos), fmt.Sprintf("%s is converted from bytes %d..%d; MS-NLMP: %d bytes at %d", s.field, off, off+w, s.width, s.off))
+				} else {
+					r.OK("R4.challenge-field", construct, c.pos(pos), fmt.Sprintf("%s:[%d]byte(data[%d:%d])", s.field, w, off, off+w))
+				}
+				continue
+			}
+		}
 		if len(as) != 1 {
 			r.Fail("R4.challenge-field", construct, c.pos(fn.Pos()), fmt.Sprintf("field %s is filled from the message %d times (expected once); decoder layout: %s", s.field, len(as), codec.Render(atoms)))
 			continue
@@ -213,31 +276,45 @@ func (c *c08) parseChallenge1(fn *ssa.Function, name string, sig *ssa.Global) {
 			if u, isU := cond.(*ssa.UnOp); isU && u.Op == token.NOT {
 				cond, neg = u.X, true
 			}
-			call, f := c08StaticCall(cond)
-			if call == nil || f == nil || f.String() != "bytes.Equal" {
+			// bytes.Equal(data[0:8], SIG), bytes.HasPrefix(data[0:…], SIG), or
+			// string(data[0:8]) ==/!= string(SIG) / "NTLMSSP\x00"
+			var a0, a1 ssa.Value
+			prefix := false
+			if call, f := c08StaticCall(cond); call != nil && f != nil && (f.String() == "bytes.Equal" || f.String() == "bytes.HasPrefix") {
+				a0, a1 = call.Common().Args[0], call.Common().Args[1]
+				prefix = f.String() == "bytes.HasPrefix"
+			} else if cmp, isB := cond.(*ssa.BinOp); isB && (cmp.Op == token.EQL || cmp.Op == token.NEQ) && c08IsString(cmp.X.Type()) {
+				a0, a1 = c08UnString(cmp.X), c08UnString(cmp.Y)
+				if cmp.Op == token.NEQ {
+					neg = !neg
+				}
+			} else {
 				continue
 			}
-			a0, a1 := call.Common().Args[0], call.Common().Args[1]
-			if c08IsSigGlobal(a0, sig) {
+			isSig := func(v ssa.Value) bool {
+				if c08IsSigGlobal(v, sig) {
+					return true
+				}
+				k, isK := v.(*ssa.Const)
+				return isK && k.Value != nil && k.Value.Kind() == constant.String && constant.StringVal(k.Value) == string(c08Signature)
+			}
+			if a0 == nil || a1 == nil {
+				continue
+			}
+			if isSig(a0) && !prefix {
 				a0, a1 = a1, a0
 			}
-			if !c08IsSigGlobal(a1, sig) {
+			if !isSig(a1) {
 				continue
 			}
-			sl, isS := a0.(*ssa.Slice)
-			if !isS || sl.X != ssa.Value(data) {
+			root, rfr, lo, hi, open := c08Window(codec.NewSym(), a0, nil)
+			if root != ssa.Value(data) || rfr != nil {
 				continue
 			}
-			loV, okLo := int64(0), true
-			if sl.Low != nil {
-				k, isK := c08ConstInt(sl.Low)
-				okLo = isK && k.IsInt64()
-				if okLo {
-					loV = k.Int64()
-				}
-			}
-			hi, okHi := c08ConstInt(sl.High)
-			if !okLo || !okHi || loV != 0 || !hi.IsInt64() || hi.Int64() != 8 {
+			loV, okLo := c08FormConst(lo)
+			hiV, okHi := c08FormConst(hi)
+			covers := okLo && loV == 0 && ((okHi && !open && hiV == 8) || (prefix && (open || (okHi && hiV >= 8))))
+			if !covers {
 				why = "the signature comparison does not cover bytes 0..8"
 				continue
 			}
@@ -281,7 +358,7 @@ func (c *c08) parseChallenge1(fn *ssa.Function, name string, sig *ssa.Global) {
 				if !isK {
 					continue
 				}
-				if is, _ := c08WireIntAt(x, data, 8, 4, "LE"); !is {
+				if is, _ := c.wireIntAt(codec.NewSym(), x, nil, data, 8, 4, "LE"); !is {
 					continue
 				}
 				if kv.Cmp(want) != 0 {
@@ -305,6 +382,77 @@ func (c *c08) parseChallenge1(fn *ssa.Function, name string, sig *ssa.Global) {
 			r.Fail("R4.challenge-check", construct, c.pos(fn.Pos()), why)
 		}
 	}
+}
+
+// c08UnString: string(b) → b; a constant string stays itself.
+func c08UnString(v ssa.Value) ssa.Value {
+	if cv, ok := v.(*ssa.Convert); ok {
+		if _, isSl := cv.X.Type().Underlying().(*types.Slice); isSl {
+			return cv.X
+		}
+	}
+	if k, ok := v.(*ssa.Const); ok {
+		return k
+	}
+	return nil
+}
+
+// arrayFromWindow: the only store to root.<field> (an array field) is
+// *(*[N]byte)(data[a:b]) — Go's slice-to-array conversion — executed on every
+// path to the success returns; returns the window.
+func (c *c08) arrayFromWindow(fn *ssa.Function, root *ssa.Alloc, data *ssa.Parameter, field string) (off, width int64, pos token.Pos, ok bool) {
+	var stores []*ssa.Store
+	for _, b := range fn.Blocks {
+		for _, in := range b.Instrs {
+			st, isSt := in.(*ssa.Store)
+			if !isSt {
+				continue
+			}
+			fa, isFa := st.Addr.(*ssa.FieldAddr)
+			if !isFa || fa.X != ssa.Value(root) {
+				continue
+			}
+			if t, _ := c08Deref(fa.X.Type()).Underlying().(*types.Struct); t != nil && t.Field(fa.Field).Name() == field {
+				stores = append(stores, st)
+			}
+		}
+	}
+	if len(stores) != 1 {
+		return 0, 0, 0, false
+	}
+	st := stores[0]
+	ld, isLd := st.Val.(*ssa.UnOp)
+	if !isLd || ld.Op != token.MUL {
+		return 0, 0, 0, false
+	}
+	cv, isCv := ld.X.(*ssa.SliceToArrayPointer)
+	if !isCv {
+		return 0, 0, 0, false
+	}
+	arr, isArr := c08Deref(cv.Type()).Underlying().(*types.Array)
+	if !isArr {
+		return 0, 0, 0, false
+	}
+	rootV, rfr, lo, hi, open := c08Window(codec.NewSym(), cv.X, nil)
+	loK, ok1 := c08FormConst(lo)
+	hiK, ok2 := c08FormConst(hi)
+	if rootV != ssa.Value(data) || rfr != nil || !ok1 || (!open && (!ok2 || hiK-loK != arr.Len())) {
+		return 0, 0, 0, false
+	}
+	// unconditional: the store's block dominates every success return
+	for _, b := range fn.Blocks {
+		ret, isRet := b.Instrs[len(b.Instrs)-1].(*ssa.Return)
+		if !isRet || len(ret.Results) != 2 {
+			continue
+		}
+		if k, isK := ret.Results[0].(*ssa.Const); isK && k.Value == nil {
+			continue
+		}
+		if !st.Block().Dominates(b) {
+			return 0, 0, 0, false
+		}
+	}
+	return loK, arr.Len(), st.Pos(), true
 }
 
 func c08IsSigGlobal(v ssa.Value, sig *ssa.Global) bool {
@@ -338,40 +486,110 @@ func (c *c08) challengeDesc(fn *ssa.Function, name string, root *ssa.Alloc, data
 		r.Undecided("R4.challenge-desc", construct, c.pos(fn.Pos()), fmt.Sprintf("%d stores to the field (expected one)", len(stores)))
 		return
 	}
-	sl, ok := stores[0].Val.(*ssa.Slice)
-	if !ok || sl.X != ssa.Value(data) || sl.Low == nil || sl.High == nil || sl.Max != nil {
-		r.Undecided("R4.challenge-desc", construct, c.ipos(stores[0]), "the field is not assigned data[lo:hi]")
+	// what is stored: data[lo:hi] itself, or the result of an in-module helper
+	// (up to two levels) every non-nil return of which is such a slice of the
+	// helper's view of data
+	type leaf struct {
+		sl *ssa.Slice
+		fr *codec.Frame
+	}
+	var leaves []leaf
+	var collect func(v ssa.Value, fr *codec.Frame, depth int) string
+	collect = func(v ssa.Value, fr *codec.Frame, depth int) string {
+		v, fr = codec.Resolve(v, fr)
+		switch x := v.(type) {
+		case *ssa.Const:
+			if x.Value == nil {
+				return "" // the field keeps its zero value
+			}
+		case *ssa.Phi:
+			for _, p := range x.Block().Preds {
+				if x.Block().Dominates(p) {
+					return "the payload is computed in a loop"
+				}
+			}
+			for _, e := range x.Edges {
+				if why := collect(e, fr, depth); why != "" {
+					return why
+				}
+			}
+			return ""
+		case *ssa.Slice:
+			leaves = append(leaves, leaf{x, fr})
+			return ""
+		case *ssa.Call:
+			f := x.Common().StaticCallee()
+			if f == nil || f.Blocks == nil || !c.P.InModule(f) || f.Signature.Results().Len() != 1 {
+				break
+			}
+			if depth >= 2 {
+				return "the payload is produced through more than two levels of helpers"
+			}
+			fr2 := &codec.Frame{Call: x, Callee: f, Parent: fr}
+			n := 0
+			for _, b := range f.Blocks {
+				if ret, ok := b.Instrs[len(b.Instrs)-1].(*ssa.Return); ok {
+					n++
+					if why := collect(ret.Results[0], fr2, depth+1); why != "" {
+						return why
+					}
+				}
+			}
+			if n == 0 {
+				return "helper " + f.Name() + " never returns"
+			}
+			return ""
+		}
+		return "the field is not assigned data[lo:hi]"
+	}
+	if why := collect(stores[0].Val, nil, 0); why != "" {
+		r.Undecided("R4.challenge-desc", construct, c.ipos(stores[0]), why)
 		return
 	}
-	if is, why := c08WireIntAt(sl.Low, data, off+4, 4, "LE"); !is {
-		r.Fail("R4.challenge-desc", construct, c.ipos(sl), "the lower bound of the payload slice "+why+fmt.Sprintf(" — it must be the descriptor's BufferOffset (4LE at %d)", off+4))
+	if len(leaves) == 0 {
+		r.Fail("R4.challenge-desc", construct, c.ipos(stores[0]), "no slice of the message is ever stored into the field")
 		return
 	}
-	z := codec.NewSym()
-	d := z.Of(sl.High).Sub(z.Of(sl.Low))
-	ts := d.Terms()
-	okLen := false
-	why := "is not BufferOffset + Len: " + z.String(d)
-	if len(ts) == 1 && d.C.Sign() == 0 && d.Coef[ts[0]].IsInt64() && d.Coef[ts[0]].Int64() == 1 {
-		v, isLen := z.TermValue(ts[0])
-		if !isLen {
-			var w string
-			okLen, w = c08WireIntAt(v, data, off, 2, "LE")
-			if !okLen {
-				why = "is BufferOffset plus a value that " + w + fmt.Sprintf(" — it must be the descriptor's Len (2LE at %d)", off)
+	for _, lf := range leaves {
+		sl, fr := lf.sl, lf.fr
+		if root, rfr := codec.Resolve(sl.X, fr); root != ssa.Value(data) || rfr != nil || sl.Low == nil || sl.High == nil || sl.Max != nil {
+			r.Undecided("R4.challenge-desc", construct, c.ipos(sl), "the field is not assigned data[lo:hi]")
+			return
+		}
+		z := codec.NewSym()
+		if is, why := c.wireIntAt(z, sl.Low, fr, data, off+4, 4, "LE"); !is {
+			r.Fail("R4.challenge-desc", construct, c.ipos(sl), "the lower bound of the payload slice "+why+fmt.Sprintf(" — it must be the descriptor's BufferOffset (4LE at %d)", off+4))
+			return
+		}
+		d := z.OfIn(sl.High, fr).Sub(z.OfIn(sl.Low, fr))
+		ts := d.Terms()
+		okLen := false
+		why := "is not BufferOffset + Len: " + z.String(d)
+		if len(ts) == 1 && d.C.Sign() == 0 && d.Coef[ts[0]].IsInt64() && d.Coef[ts[0]].Int64() == 1 {
+			v, isLen := z.TermValue(ts[0])
+			if !isLen {
+				var w string
+				okLen, w = c.wireIntAt(z, v, z.TermFrame(ts[0]), data, off, 2, "LE")
+				if !okLen {
+					why = "is BufferOffset plus a value that " + w + fmt.Sprintf(" — it must be the descriptor's Len (2LE at %d)", off)
+				}
 			}
 		}
+		if !okLen {
+			r.Fail("R4.challenge-desc", construct, c.ipos(sl), "the upper bound of the payload slice "+why)
+			return
+		}
+		out := c.w.ProveBounds(sl)
+		if !out.Proved {
+			r.Add("R4.challenge-desc", construct, c.ipos(sl), report.Finding, "data[Offset:Offset+Len] is not proved in bounds from the dominating guard (the guard must test the very values that are sliced, without wrap): "+out.Failed, map[string]any{"facts": out.Facts})
+			return
+		}
 	}
-	if !okLen {
-		r.Fail("R4.challenge-desc", construct, c.ipos(sl), "the upper bound of the payload slice "+why)
-		return
+	via := ""
+	if leaves[0].fr != nil {
+		via = " (through helper " + leaves[0].fr.Callee.Name() + ", read at its call site)"
 	}
-	out := c.w.ProveBounds(sl)
-	if !out.Proved {
-		r.Add("R4.challenge-desc", construct, c.ipos(sl), report.Finding, "data[Offset:Offset+Len] is not proved in bounds from the dominating guard (the guard must test the very values that are sliced, without wrap): "+out.Failed, map[string]any{"facts": out.Facts})
-		return
-	}
-	r.OK("R4.challenge-desc", construct, c.ipos(sl), fmt.Sprintf("data[LE32@%d : LE32@%d + LE16@%d], in bounds by E1", off+4, off+4, off))
+	r.OK("R4.challenge-desc", construct, c.ipos(leaves[0].sl), fmt.Sprintf("data[LE32@%d : LE32@%d + LE16@%d], in bounds by E1%s", off+4, off+4, off, via))
 }
 
 // ---------------------------------------------------------------------------
@@ -417,12 +635,27 @@ func (c *c08) parseTargetInfo1(fn *ssa.Function, name string) {
 			}
 		}
 	}
-	symWindow := func(v ssa.Value) (lo, hi lin.Form, ok bool) {
-		sl, isS := v.(*ssa.Slice)
-		if !isS || sl.X != ssa.Value(data) || sl.Low == nil || sl.High == nil {
-			return lo, hi, false
+	// The walk keeps a position in the target info: an integer offset
+	// (targetInfo[offset:…]) or the not-yet-consumed tail (rest = rest[n:]).
+	// Either way a window is bytes [lo, hi) of targetInfo with lo, hi linear in
+	// the position P at the start of the iteration.
+	var phi *ssa.Phi // the loop-carried position
+	var P lin.Form   // its value at the start of an iteration, as an offset into targetInfo
+	symWindow := func(v ssa.Value) (lo, hi lin.Form, open, ok bool) {
+		root, rfr, lo, hi, open := c08Window(z, v, nil)
+		if rfr != nil {
+			return lo, hi, open, false
 		}
-		return z.Of(sl.Low), z.Of(sl.High), true
+		if root == ssa.Value(data) {
+			return lo, hi, open, true
+		}
+		if p, isP := root.(*ssa.Phi); isP && phi != nil && p == phi {
+			if open {
+				return P.Add(lo), hi, true, true
+			}
+			return P.Add(lo), P.Add(hi), false, true
+		}
+		return lo, hi, open, false
 	}
 	// AvId
 	idCall, idWin, idW, idOrder, ok := c08Get(mu.Key)
@@ -430,14 +663,24 @@ func (c *c08) parseTargetInfo1(fn *ssa.Function, name string) {
 		r.Fail("R4.avpair", name+": AvId", c.ipos(mu), "the key under which a value is stored is not an integer read from the buffer")
 		return
 	}
-	idLo, idHi, ok := symWindow(idWin)
-	var phi *ssa.Phi
-	if ok {
-		ts := idLo.Terms()
-		if len(ts) == 1 && idLo.C.Sign() == 0 && idLo.Coef[ts[0]].IsInt64() && idLo.Coef[ts[0]].Int64() == 1 {
-			v, isLen := z.TermValue(ts[0])
-			if p, isP := v.(*ssa.Phi); isP && !isLen {
-				phi = p
+	{
+		root, rfr, lo, _, _ := c08Window(z, idWin, nil)
+		switch {
+		case rfr != nil:
+		case root == ssa.Value(data):
+			// integer position: the window starts at a loop-carried offset
+			if ts := lo.Terms(); len(ts) == 1 && lo.C.Sign() == 0 && lo.Coef[ts[0]].IsInt64() && lo.Coef[ts[0]].Int64() == 1 {
+				v, isLen := z.TermValue(ts[0])
+				if p, isP := v.(*ssa.Phi); isP && !isLen {
+					phi, P = p, lin.V(ts[0])
+				}
+			}
+		default:
+			// slice position: the window is cut from the loop-carried tail
+			if p, isP := root.(*ssa.Phi); isP {
+				if _, isSl := p.Type().Underlying().(*types.Slice); isSl {
+					phi, P = p, z.Fresh("pos")
+				}
 			}
 		}
 	}
@@ -445,6 +688,7 @@ func (c *c08) parseTargetInfo1(fn *ssa.Function, name string) {
 		r.Undecided("R4.avpair", name+": AvId", c.ipos(idCall), "AvId is not read at the running offset of the loop")
 		return
 	}
+	_, tail := phi.Type().Underlying().(*types.Slice)
 	hb := phi.Block()
 	var backs, entries []int
 	for i, p := range hb.Preds {
@@ -458,20 +702,26 @@ func (c *c08) parseTargetInfo1(fn *ssa.Function, name string) {
 		r.Undecided("R4.avpair", name+": AvId", c.ipos(idCall), "the running offset is not a loop-carried variable")
 		return
 	}
-	if k, isK := c08ConstInt(phi.Edges[entries[0]]); !isK || k.Sign() != 0 {
+	if tail {
+		root, rfr, lo, _, open := c08Window(z, phi.Edges[entries[0]], nil)
+		if k, isK := c08FormConst(lo); root != ssa.Value(data) || rfr != nil || !isK || k != 0 || !open {
+			r.Fail("R4.avpair", name+": AvId", c.ipos(phi), "the walk does not start with the whole target info (offset 0 to its end)")
+			return
+		}
+	} else if k, isK := c08ConstInt(phi.Edges[entries[0]]); !isK || k.Sign() != 0 {
 		r.Fail("R4.avpair", name+": AvId", c.ipos(phi), "the walk does not start at offset 0 of the target info")
 		return
 	}
-	P := lin.V(idLo.Terms()[0])
-	if idW != 2 || idOrder != "LE" || !idHi.Equal(P.AddK(2)) {
-		r.Fail("R4.avpair", name+": AvId", c.ipos(idCall), fmt.Sprintf("AvId is read as %d bytes %s from [%s:%s]; MS-NLMP AV_PAIR: AvId 2 bytes little-endian at +0", idW, idOrder, z.String(idLo), z.String(idHi)))
+	idLo, _, _, okW := symWindow(idWin)
+	if !okW || idW != 2 || idOrder != "LE" || !idLo.Equal(P) {
+		r.Fail("R4.avpair", name+": AvId", c.ipos(idCall), fmt.Sprintf("AvId is read as %d bytes %s from offset %s; MS-NLMP AV_PAIR: AvId 2 bytes little-endian at +0", idW, idOrder, z.String(idLo)))
 	} else {
 		r.OK("R4.avpair", name+": AvId", c.ipos(idCall), "2LE at offset+0")
 	}
 	// value and AvLen
-	vLo, vHi, ok := symWindow(mu.Value)
-	if !ok {
-		r.Undecided("R4.avpair", name+": value", c.ipos(mu), "the value stored is not a window of the target info")
+	vLo, vHi, vOpen, ok := symWindow(mu.Value)
+	if !ok || vOpen {
+		r.Undecided("R4.avpair", name+": value", c.ipos(mu), "the value stored is not a bounded window of the target info")
 		return
 	}
 	d := vHi.Sub(vLo)
@@ -481,11 +731,11 @@ func (c *c08) parseTargetInfo1(fn *ssa.Function, name string) {
 		v, isLen := z.TermValue(ts[0])
 		if !isLen {
 			if call, win, w, order, ok := c08Get(v); ok {
-				lo, hi, ok2 := symWindow(win)
+				lo, _, _, ok2 := symWindow(win)
 				switch {
 				case !ok2:
-				case w != 2 || order != "LE" || !lo.Equal(P.AddK(2)) || !hi.Equal(P.AddK(4)):
-					r.Fail("R4.avpair", name+": AvLen", c.ipos(call), fmt.Sprintf("AvLen is read as %d bytes %s from [%s:%s]; MS-NLMP AV_PAIR: AvLen 2 bytes little-endian at +2", w, order, z.String(lo), z.String(hi)))
+				case w != 2 || order != "LE" || !lo.Equal(P.AddK(2)):
+					r.Fail("R4.avpair", name+": AvLen", c.ipos(call), fmt.Sprintf("AvLen is read as %d bytes %s from offset %s; MS-NLMP AV_PAIR: AvLen 2 bytes little-endian at +2", w, order, z.String(lo)))
 					return
 				default:
 					lenCall, lenTerm = call, lin.V(ts[0])
@@ -507,7 +757,16 @@ func (c *c08) parseTargetInfo1(fn *ssa.Function, name string) {
 	{
 		bad := ""
 		for _, i := range backs {
-			if nf := z.Of(phi.Edges[i]); !nf.Equal(P.AddK(4).Add(lenTerm)) {
+			nf := z.Of(phi.Edges[i])
+			if tail {
+				lo, _, open, ok := symWindow(phi.Edges[i])
+				if !ok || !open {
+					bad = "the tail kept for the next pair is not the rest of the target info up to its end"
+					continue
+				}
+				nf = lo
+			}
+			if !nf.Equal(P.AddK(4).Add(lenTerm)) {
 				bad = fmt.Sprintf("the next pair is sought at %s; it starts at offset + 4 + AvLen", z.String(nf))
 			}
 		}
